@@ -30,13 +30,30 @@ import (
 )
 
 var impls = []string{"BIN", "BNM", "FIB"}
-var orients = []string{"min", "max"}
+// Comparators.  generic.CompareFunc promises negative / zero / positive, not -1 / 0 / +1, so
+// besides the library's own (+-1) comparators the heaps are driven with comparators that return
+// magnitudes: a-b, b-a, 3*(a-b), 3*(b-a).  Code that tests `== 1` or `== -1` instead of the sign
+// behaves differently under them.
+var orients = []string{"min", "max", "minm", "maxm", "min3", "max3"}
+
+func cmpOf(orient string) generic.CompareFunc[int] {
+	switch orient {
+	case "max":
+		return generic.NewReverseCompareFunc[int]()
+	case "minm":
+		return func(a, b int) int { return a - b }
+	case "maxm":
+		return func(a, b int) int { return b - a }
+	case "min3":
+		return func(a, b int) int { return 3 * (a - b) }
+	case "max3":
+		return func(a, b int) int { return 3 * (b - a) }
+	}
+	return generic.NewCompareFunc[int]()
+}
 
 func mk(impl, orient string, size int) heap.Heap[int, int] {
-	cmp := generic.NewCompareFunc[int]()
-	if orient == "max" {
-		cmp = generic.NewReverseCompareFunc[int]()
-	}
+	cmp := cmpOf(orient)
 	eq := generic.NewEqualFunc[int]()
 	switch impl {
 	case "BIN":
@@ -473,7 +490,7 @@ func random(w *sw, r *rng.R, cases, maxSteps int) {
 					}
 				}
 			}
-			runCase(w, header(impl, orients[c%2], sizes), o)
+			runCase(w, header(impl, orients[c%len(orients)], sizes), o)
 		}
 	}
 }
@@ -538,10 +555,11 @@ func shapes(w *sw, r *rng.R, thorough bool) {
 	if thorough {
 		maxK = 12
 	}
-	for _, orient := range orients {
-		for _, impl := range impls {
+	for half := 0; half < 2; half++ {
+		for ii, impl := range impls {
 			for k := 1; k <= maxK; k++ {
 				for _, keyShape := range []int{0, 1, 2, 3} { // ascending, descending, equal, random small range
+					orient := orients[(2*(k+keyShape+ii)+half)%len(orients)] // min-like for half 0, max-like for half 1
 					var ops []string
 					nIns := (1 << k) + 1
 					for x := 0; x < nIns; x++ {
@@ -626,18 +644,24 @@ func main() {
 			l1, l2 = 7, 5
 		}
 		for _, orient := range orients {
+			// full depth under a +-1 comparator (min) and under a magnitude comparator (max3);
+			// one step less under the other four
+			d := 1
+			if orient == "min" || orient == "max3" {
+				d = 0
+			}
 			for _, impl := range impls {
-				exhaustive(w, impl, orient, []int{0}, l1, true, 2)
-				exhaustive(w, impl, orient, []int{0}, l1-1, false, 3)
+				exhaustive(w, impl, orient, []int{0}, l1-d, true, 2)
+				exhaustive(w, impl, orient, []int{0}, l1-1-d, false, 3)
 				if impl != "BIN" {
-					exhaustive(w, impl, orient, []int{0, 0}, l2, false, 2)
+					exhaustive(w, impl, orient, []int{0, 0}, l2-d, false, 2)
 					// deeper, without DeleteAll: consolidation of forests with mixed degrees needs
 					// Deletes between the Inserts
-					exhaustive(w, impl, orient, []int{0}, l1+2, false, 2)
+					exhaustive(w, impl, orient, []int{0}, l1+2-d, false, 2)
 				}
 			}
 			for size := 1; size <= 4; size++ {
-				exhaustive(w, "BIN", orient, []int{size}, l1-1, false, 2)
+				exhaustive(w, "BIN", orient, []int{size}, l1-1-d, false, 2)
 			}
 		}
 	case "random":
